@@ -5,6 +5,9 @@ From KV Require Import Common.Verdict Model.C01 Proofs.C01.
 Import ListNotations.
 Open Scope N_scope.
 
-Theorem dedup_nil : forall A, @dedup A [] = [].
-Proof. exact Proofs.C01.placeholder_dedup_nil. Qed.
-Print Assumptions dedup_nil.
+(* Soundness of the executable property evaluated on the implementation's observables. *)
+Theorem spec01_sound :
+  forall cs, spec01 cs = true -> covered (c_in cs) = true ->
+    obs_agreement (c_obs cs) /\ obs_never_marked (honest_ids (c_in cs)) (c_obs cs).
+Proof. exact Proofs.C01.spec01_sound. Qed.
+Print Assumptions spec01_sound.
